@@ -370,6 +370,56 @@ def check_domain_fields_fixed(ctx: Ctx, oid: str):
     ctx.ob(oid, "R28 WRITER-DISCIPLINE", bad[0][0] if bad else ctx.func("cp", "IntVar.__init__"), "the domain of an IntVar (lb, ub, one literal per value) is written by its constructor only", not bad, f"`{ast.unparse(bad[0][1])[:50]}` in {bad[0][0].qualname}: the literal of a value that is no longer in [lb, ub] stays in bool_vars without any clause on it - free for the SAT solver, and the decoder reports the first true literal (a removed value comes back as the answer)" if bad else "", node=bad[0][1] if bad else None)
 
 
+def check_report_filter(ctx: Ctx, oid: str):
+    """Both back-ends leave out of the returned assignment exactly the variables the model named itself: the names
+    `int_var` made up (recorded in `Model._unnamed`, written there and nowhere else), not every name of a certain
+    spelling - a caller's own `_x` is a named variable and must get its value (ledger row 80)."""
+    from sa.cfg import cfg_of
+    from sa.guards import GuardView
+
+    writes = []
+    for modname in ("cp", "cp_encoder"):
+        m = ctx.repo.module(modname)
+        for q, f in sorted(m.funcs.items()):
+            for n in own_nodes(f.node):
+                if isinstance(n, ast.Attribute) and n.attr == "_unnamed":
+                    par_write = False
+                    for w in own_nodes(f.node):
+                        if isinstance(w, (ast.Assign, ast.AugAssign, ast.AnnAssign, ast.Delete)):
+                            tg = w.targets if isinstance(w, (ast.Assign, ast.Delete)) else [w.target]
+                            par_write |= any(n is x for t in tg for x in ast.walk(t))
+                        elif isinstance(w, ast.Call) and isinstance(w.func, ast.Attribute) and w.func.value is n and w.func.attr in ("add", "update", "discard", "remove", "clear", "pop", "difference_update", "intersection_update", "symmetric_difference_update"):
+                            par_write = True
+                    if par_write:
+                        writes.append((q, f, n))
+    iv = ctx.func("cp", "Model.int_var")
+    cfg = cfg_of(iv.node)
+    gv = GuardView(cfg)
+    good = 0
+    bad = []
+    for q, f, n in writes:
+        if q == "Model.__init__":
+            continue
+        if q == "Model.int_var":
+            at = gv.guard_atoms(cfg.stmt_node_containing(n), stable_only=False)
+            if "name is None" in at:
+                good += 1
+                continue
+        bad.append((q, f, n))
+    ctx.floor("recordings of a made-up variable name", good, 1)
+    ctx.ob(oid, "R28 WRITER-DISCIPLINE", bad[0][1] if bad else iv, "the set of names the model made up is written by int_var only, for a variable created without a name", not bad, f"written in {bad[0][0]} at line {bad[0][2].lineno}: a named variable that lands in the set loses its value in every returned assignment" if bad else "", node=bad[0][2] if bad else iv.node)
+    dfs = ctx.func("cp", "Model._solve_dfs.backtrack")
+    comps = [n for n in own_nodes(dfs.node) if isinstance(n, ast.DictComp) and "domains" in ast.unparse(n) and "next(iter(" in ast.unparse(n.value)]
+    ctx.floor("assignment read-outs of the DFS back-end", len(comps), 1)
+    for c_ in comps:
+        conds = [ast.unparse(i) for g in c_.generators for i in g.ifs]
+        key = ast.unparse(c_.key)
+        ctx.ob(oid, "R18 table", dfs, "the DFS report leaves out exactly the names the model made up", conds == [f"{key} not in self._unnamed"], f"filter {conds}: a test on the spelling of the name drops the caller's own variables that happen to be spelt that way, and the returned assignment gives them no value", node=c_)
+    dec = ctx.func("cp_encoder", "SATEncoder.solve.decode_sat_solution")
+    skip = [n for n in own_nodes(dec.node) if isinstance(n, ast.If) and any(isinstance(x, ast.Continue) for x in n.body)]
+    ctx.ob(oid, "R18 table", dec, "the SAT decoder leaves out exactly the names the model made up", [ast.unparse(s_.test) for s_ in skip] == ["name in self.model._unnamed"], f"skips under {[ast.unparse(s_.test) for s_ in skip]}", node=skip[0] if skip else dec.node)
+
+
 # where the encoder may declare the whole model unsatisfiable (an empty clause), and under which test: one line per site
 UNSAT_SITES = {
     "SATEncoder._encode_exactly_one": [{"F:lits"}],  # a variable with an empty domain
